@@ -182,6 +182,9 @@ def iterm2_unit(method, term, src, override=None, src_mode="RGB", alpha_kind="fl
             s.ghost["render_data_size"] = k.get("size")
             return [((im, None, None), s)]
         eng.methods[("ITerm2Image", "_get_render_data")] = get_render_data
+        c11_frame = (src_mode, alpha_kind) == ("RGB", "float") and override is None and method != "anim"
+        if c11_frame:
+            frame_image_world(eng, "ITerm2Image")
         eng.methods[("PIL.Image", "save")] = pil_save
         eng.methods[("PIL.Image", "tobytes")] = lambda e, s, recv, a, k: [(Rec("bytes", {"len": s.H(recv)["size"][0] * s.H(recv)["size"][1] * len(s.H(recv)["mode"])}), s)]
         eng.methods[("PIL.Image", "__enter__")] = lambda e, s, recv, a, k: [(recv, s)]
@@ -235,6 +238,10 @@ def iterm2_unit(method, term, src, override=None, src_mode="RGB", alpha_kind="fl
         # `alpha` only matters in the read-from-file gate (isinstance(alpha, float)) and img.mode membership tests
         st.env["alpha"] = {"float": z3.Real("alpha_threshold"), "hex": "#a1b2c3", "#": "#", "None": None}[alpha_kind]
         outs = run_function(eng, ctx.fn(ITERM, "ITerm2Image._render_image"), st)
+        if c11_frame:
+            # (when the source file itself is sent, _get_render_data is not called at all; frames of an iteration never take that way:
+            # the gate excludes animated images)
+            frame_image_exits(eng, [o for o in outs if o[2].ghost.get("rd_returned") is not None], img0, st.env["frame"])
         for kind, val, s in outs:
             if method == "whole":
                 # the read-from-file gate (C03): the source file itself is transmitted only when that shows the same picture as a
